@@ -20,6 +20,8 @@ def mk_classes(world, module=None):
         if k == "string": return xo.String
         if k == "array":
             shape = tuple(slice(None) if d is None else d for d in f[3])
+            if len(f) > 4 and f[4] and f[4].get("order"):      # another axis order in memory
+                shape = tuple(slice(d, o) for d, o in zip(f[3], f[4]["order"]))
             return SC[f[2]][shape if len(shape) > 1 else shape[0]]
         if k == "nested":
             if len(f) > 3 and f[3]:      # the holder declares its own default for the nested object
@@ -99,12 +101,29 @@ def snapshot(world, classes, name, o):
     return out
 
 
-def kwargs_for(world, classes, cname, vals, objs):
+def to_pynames(world, cname, vals):
+    """a nested dictionary keyed by the PYTHON names of the class (at every level)"""
+    spec = world["classes"][cname]
+    out = {}
+    for f in spec["fields"]:
+        if f[0] not in vals: continue
+        v = vals[f[0]]
+        if f[1] == "nested" and isinstance(v, dict) and "obj" not in v: v = to_pynames(world, f[2], v)
+        elif f[1] == "array": v = np.array(v, dtype=X.DT[f[2]])
+        out[pyname(spec, f[0])] = v
+    return out
+
+
+def kwargs_for(world, classes, cname, vals, objs, pynames=False):
     spec = world["classes"][cname]
     kw = {}
     for f in spec["fields"]:
         if f[0] in vals:
-            kw[pyname(spec, f[0])] = val_to_py(f, vals[f[0]], objs)
+            v = vals[f[0]]
+            if pynames and f[1] == "nested" and isinstance(v, dict) and "obj" not in v:
+                kw[pyname(spec, f[0])] = to_pynames(world, f[2], v)
+            else:
+                kw[pyname(spec, f[0])] = val_to_py(f, v, objs)
     return kw
 
 
@@ -126,7 +145,7 @@ def run_case(c, module=None):
                 if op["buf"].startswith("N"):      # a buffer of its own
                     objs[op["name"]] = classes[op["cls"]](**kwargs_for(world, classes, op["cls"], op["vals"], objs))
                 else:
-                    objs[op["name"]] = classes[op["cls"]](**kwargs_for(world, classes, op["cls"], op["vals"], objs), _buffer=bufs[op["buf"]])
+                    objs[op["name"]] = classes[op["cls"]](**kwargs_for(world, classes, op["cls"], op["vals"], objs, op.get("pynames", False)), _buffer=bufs[op["buf"]])
             elif o == "set":
                 tgt = objs[op["obj"]]
                 for pn in op.get("via", []):
